@@ -172,6 +172,28 @@ fn main() {
             }
             0
         }
+        Some("whyexcl") => {
+            use proptest::test_runner::{Config, RngSeed, TestRunner};
+            let mut runner = TestRunner::new(Config { rng_seed: RngSeed::Fixed(seed), failure_persistence: None, ..Config::default() });
+            let mut ex = gen::Excl::default();
+            ex.active.insert(pos.get(0).cloned().unwrap_or("self_assign".into()));
+            let cfg = checks::c01::cfg();
+            let mut shown = 0;
+            for _ in 0..400 {
+                let (prog, _) = { let mut g = pbt::G::new(runner.rng()); gen::ProgGen::new(&mut g, cfg.clone()).program() };
+                if excl::find_excluded(&prog, &ex).is_some() {
+                    // find the smallest function statement that triggers
+                    for f in &prog.funcs { for st in &f.body {
+                        let p2 = ast::Program { globals: prog.globals.clone(), funcs: vec![ast::Func { body: vec![st.clone()], ..f.clone() }] };
+                        if excl::find_excluded(&p2, &ex).is_some() && shown < 25 {
+                            let mut pr = ast::Printer::new(ast::Parens::Minimal); pr.stmt(st);
+                            let t = pr.out; if t.len() < 200 { writeln!(out, "{}", t.trim()).ok(); shown += 1; }
+                        }
+                    } }
+                }
+            }
+            0
+        }
         Some("refc") => refc_debug(&mut out, &pos.get(0).cloned().unwrap_or_default()),
         Some("replay") => {
             let path = pos.get(0).cloned().unwrap_or_default();
